@@ -1,6 +1,7 @@
 import RexModel.Compiled.Dataflow
 import RexModel.Compiled.Window
 import RexModel.Props.C03
+import RexModel.Async.Payload
 
 /-! # C01 — compiled replay reproduces the recorded asynchronous execution step for step
 
@@ -129,5 +130,24 @@ theorem C01_windows_agree (init : List (Item T)) (es : List (Edge T)) (k : Int) 
     gs.foldl (fun win g => (sel_window g init.length).foldl pushItem win) init = applyWindow init es k := by
   rw [async_window_eq_last init gs h0, applyWindow_sorted init es k hs, ← hflat,
       Rex.C03.window_is_last_w init gs.flatten h0]
+
+/-! ## Machine level: what a recorded asynchronous step saw, under every schedule -/
+
+/-- **Every window entry a recorded step saw is the recorded output of the sender's step with that sequence number** (or a default
+entry): in every state the asynchronous machine can reach — any graph, delays, step functions, interleaving of all threads — each
+recorded step of a node has one window per input, and each entry of the window of input `c` either has a negative sequence number
+and carries the connection's initial output, or carries exactly the output that the sender's record lists for the step with the
+entry's sequence number. Together with `C13_recorded_steps_are_faithful` (output = step function of the recorded state and windows),
+`C13_recorded_states_chain` (state = state returned by the previous step) and `C03_exactly_once_in_order`, the recorded episode *is*
+the dataflow evaluation of its own graph — the object `C01_any_valid_schedule` quantifies over. -/
+theorem C01_window_payloads_are_sender_outputs [TimeLike T] (cfg : Cfg T) (d : Nat) (nc : NodeCfg T) (hd : cfg.node d = some nc)
+    {σ : List Rule} {s : MSt T} (h : Rex.Conf.Run (machine cfg).toNet.sys (initState cfg) σ s)
+    (r : StepRec T) (hr : Val.stepRec r ∈ s.q (.node d .record)) :
+    nc.inputs.length = r.windows.length ∧
+    ∀ (k : Nat) (c : Nat) (w : List (Item T)), nc.inputs[k]? = some c → r.windows[k]? = some w → ∀ it ∈ w,
+      (it.seq < 0 ∧ ∃ cc, cfg.conn c = some cc ∧ it.data = cc.initData) ∨
+      ∃ r' : StepRec T, Val.stepRec r' ∈ s.q (.node (cfg.src c) .record) ∧ r'.seq = it.seq ∧ r'.output = some it.data := by
+  have hi := pinv_run cfg h (pinv_init cfg)
+  exact winOk_get cfg s nc.inputs r.windows (hi.records d nc hd r hr)
 
 end Rex.C01
